@@ -61,6 +61,22 @@ def _eq_all(ctx, A, B, label):
     return ctx.holds(z3.And(*cs), label)
 
 
+def _args_match(ctx, n_code, key, detail, params):
+    """the oracle's erf arguments must all have been identified with
+    arguments the code used (otherwise the value obligation is a hard
+    satisfiability problem over unrelated erf values): structural check with a
+    cheap witness."""
+    ctx.stats.obligations += 1
+    if len(ctx.uf.erf_t.entries) == n_code:
+        ctx.stats.unsat += 1
+        return True
+    ctx.stats.sat += 1
+    # (no model is requested: the mismatch is structural, i.e. for generic
+    # parameter values; the replay evaluates the real model at fixed ones)
+    ctx.find(key, detail, {}, params=params)
+    return False
+
+
 def _K(fm):
     return Fraction(float(fm.GAUSSIAN_FWHM_TO_SIGMA))
 
@@ -101,6 +117,7 @@ def run_prf(case):
         yy, xx = np.mgrid[-N:N + 1, -N:N + 1]
         r = _prf_eval(fm, name, xx, yy, flux, x0, y0, w)
         cnt['n'] += 1
+        n_code = len(ctx.uf.erf_t.entries)
         sx, sy = _prf_sigmas(fm, name, w)
         half = Fraction(2, 5) if twin else Fraction(1, 2)
         rt2 = Fraction(float(np.sqrt(2)))
@@ -109,6 +126,11 @@ def run_prf(case):
         ey = ctx.uf.erf((N + half - y0) / (rt2 * sy)) - ctx.uf.erf(
             (-N - half - y0) / (rt2 * sy))
         tot = r.sum()
+        if not _args_match(
+                ctx, n_code, f'prf:edges:{name}', 'the erf arguments of the '
+                'outermost pixels are not the block edges (half-integers) '
+                'scaled by 1/(sqrt2 sigma)', dict(P, ob='edges')):
+            return
         res, mdl = _eq(ctx, tot, flux / 4 * ex * ey, 'telescope')
         if res == 'sat':
             ctx.find(f'prf:telescope:{name}', 'the sum over a pixel block is '
@@ -173,6 +195,83 @@ def run_prf(case):
     return dict(stats=st, findings=f, samples=samples, nontrivial=cnt['n'])
 
 
+def run_prf_rot(case):
+    """GaussianPRF at a symbolic rotation: what holds for every angle."""
+    fm = _fm()
+    N = case['N']
+    cnt = dict(n=0)
+    P = dict(kind='analytic', sub='prfrot', N=N)
+    twin = case.get('twin')
+
+    def fn(ctx):
+        ctx.uf = UFEnv(ctx)
+        x0, y0, flux, th = (ctx.real('x0'), ctx.real('y0'), ctx.real('flux'),
+                            ctx.real('th'))
+        w = [ctx.real('w0'), ctx.real('w1')]
+        for v in w:
+            ctx.assume(v > 0)
+        yy, xx = np.mgrid[-N:N + 1, -N:N + 1]
+        G = fm.GaussianPRF()
+        r = G.evaluate(xx, yy, flux, x0, y0, w[0], w[1], th)
+        cnt['n'] += 1
+        n_code = len(ctx.uf.erf_t.entries)
+        if len(ctx.uf.trig) != 1:
+            ctx.find('prfrot:shape', 'GaussianPRF.evaluate no longer uses one '
+                     'rotation angle', {}, params=dict(P, ob='shape'))
+            return
+        c, s_ = SymReal(ctx.uf.trig[0][1]), SymReal(ctx.uf.trig[0][2])
+        K = _K(fm)
+        rt2 = Fraction(float(np.sqrt(2)))
+        half = Fraction(2, 5) if twin else Fraction(1, 2)
+        # pixel value = flux/4 * d(erf) over [u-1/2, u+1/2] / (sqrt2 sx)
+        #                      * d(erf) over [v-1/2, v+1/2] / (sqrt2 sy)
+        # with (u, v) the pixel centre in the rotated frame of the model
+        fac = np.empty(r.shape, dtype=object)
+        pos = []
+        for j in range(2 * N + 1):
+            for i in range(2 * N + 1):
+                dx, dy = xx[j, i] - x0, yy[j, i] - y0
+                u, v = dx * c + dy * s_, -dx * s_ + dy * c
+                ax = ctx.uf.erf((u + half) / (rt2 * (w[0] * K))) - \
+                    ctx.uf.erf((u - half) / (rt2 * (w[0] * K)))
+                ay = ctx.uf.erf((v + half) / (rt2 * (w[1] * K))) - \
+                    ctx.uf.erf((v - half) / (rt2 * (w[1] * K)))
+                fac[j, i] = flux / 4 * ax * ay
+                pos.extend([ax, ay])
+        if not _args_match(
+                ctx, n_code, 'prfrot:args', 'the erf arguments are not the '
+                'pixel edges in the rotated frame of the model scaled by '
+                '1/(sqrt2 sigma)', dict(P, ob='args')):
+            return
+        res, mdl = _eq_all(ctx, r, fac, 'factor')
+        if res == 'sat':
+            ctx.find('prfrot:factor', 'rotated GaussianPRF pixel is not '
+                     'flux/4 * d(erf)_u * d(erf)_v in the rotated frame',
+                     ctx.witness(mdl), params=dict(P, ob='factor'))
+        if twin:
+            return
+        res, mdl = ctx.holds(z3.And(*[term(v) > 0 for v in pos]),
+                             'factors-positive')
+        if res == 'sat':
+            ctx.find('prfrot:nonneg', 'a per-axis erf difference is not '
+                     'positive', ctx.witness(mdl), params=dict(P, ob='nonneg'))
+        r2 = G.evaluate(-xx, -yy, flux, -x0, -y0, w[0], w[1], th)
+        res, mdl = _eq_all(ctx, r, r2, 'sym')
+        if res == 'sat':
+            ctx.find('prfrot:symmetry', 'rotated GaussianPRF not '
+                     'point-symmetric', ctx.witness(mdl),
+                     params=dict(P, ob='sym'))
+        a = ctx.real('a')
+        r3 = G.evaluate(xx, yy, a * flux, x0, y0, w[0], w[1], th)
+        res, mdl = _eq_all(ctx, r3, a * r, 'linear')
+        if res == 'sat':
+            ctx.find('prfrot:linear', 'rotated GaussianPRF not linear in '
+                     'flux', ctx.witness(mdl), params=dict(P, ob='linear'))
+
+    _, st, f = explore(fn, timeout_ms=60000)
+    return dict(stats=st, findings=f, samples=[], nontrivial=cnt['n'])
+
+
 def run_prf_forms(case):
     """sigma form == FWHM form == elliptical form at theta = 0."""
     fm = _fm()
@@ -190,10 +289,16 @@ def run_prf_forms(case):
         if case.get('twin'):
             fw = sg * 2
         ra = fm.CircularGaussianSigmaPRF().evaluate(xx, yy, flux, x0, y0, sg)
+        n_code = len(ctx.uf.erf_t.entries)
         rb = fm.CircularGaussianPRF().evaluate(xx, yy, flux, x0, y0, fw)
         rc = fm.GaussianPRF().evaluate(xx, yy, flux, x0, y0, fw, fw, 0.0)
         rd = fm.IntegratedGaussianPRF().evaluate(xx, yy, flux, x0, y0, sg)
         cnt['n'] += 1
+        if not _args_match(ctx, n_code, 'prf:forms:args', 'the sigma, FWHM '
+                           'and elliptical forms evaluate erf at different '
+                           'arguments for fwhm = sigma / '
+                           'GAUSSIAN_FWHM_TO_SIGMA', dict(P, ob='args')):
+            return
         for lab, o in (('fwhm', rb), ('elliptical', rc), ('integrated', rd)):
             res, mdl = _eq_all(ctx, ra, o, lab)
             if res == 'sat':
@@ -438,7 +543,7 @@ def _airy_twin(dx, dy, radius, flux, x0, y0):
 
 
 RUN = dict(prf=run_prf, forms=run_prf_forms, psf=run_psf, moffat=run_moffat,
-           airy=run_airy)
+           airy=run_airy, prfrot=run_prf_rot)
 
 
 def cases(tier):
@@ -449,6 +554,10 @@ def cases(tier):
                        name=f'analytic-prf-{m}-N{N}'))
     cs.append(dict(kind='analytic', sub='prf', model='CircularGaussianPRF',
                    N=1, twin=True, name='analytic-prf-twin'))
+    cs.append(dict(kind='analytic', sub='prfrot', N=1 if tier == 'quick'
+                   else 2, name='analytic-prf-rotated'))
+    cs.append(dict(kind='analytic', sub='prfrot', N=0, twin=True,
+                   name='analytic-prf-rotated-twin'))
     cs.append(dict(kind='analytic', sub='forms', N=N,
                    name=f'analytic-prf-forms-N{N}'))
     cs.append(dict(kind='analytic', sub='forms', N=0, twin=True,
@@ -490,6 +599,27 @@ def concrete(p, w):
             return None
         return _airy_check(p['dx'], p['dy'], p['radius'], p['fluxc'],
                            p['x0'], p['y0'])
+    if sub == 'prfrot':
+        N = int(p['N'])
+        yy, xx = np.mgrid[-N:N + 1, -N:N + 1]
+        K = 1 / (2 * math.sqrt(2 * math.log(2)))
+        for (x0, y0, flux, w0, w1) in pts:
+            if not (1e-3 < w0 < 1e3 and 1e-3 < w1 < 1e3):
+                continue
+            for th in (g('th', 35.0) % 360.0, 35.0, 90.0):
+                m = psf.GaussianPRF(flux=flux, x_0=x0, y_0=y0, x_fwhm=w0,
+                                    y_fwhm=w1, theta=th)
+                t = math.radians(th)
+                u = (xx - x0) * math.cos(t) + (yy - y0) * math.sin(t)
+                v = -(xx - x0) * math.sin(t) + (yy - y0) * math.cos(t)
+                sx, sy = w0 * K * math.sqrt(2), w1 * K * math.sqrt(2)
+                want = flux / 4 * (erf((u + .5) / sx) - erf((u - .5) / sx)) \
+                    * (erf((v + .5) / sy) - erf((v - .5) / sy))
+                if not np.allclose(m(xx, yy), want, rtol=1e-9,
+                                   atol=1e-13 * abs(flux)):
+                    return (f'GaussianPRF(theta={th}) is not the product of '
+                            f'erf differences in the rotated frame')
+        return None
     for (x0, y0, flux, w0, w1) in pts:
         if not (1e-3 < w0 < 1e3 and 1e-3 < w1 < 1e3 and abs(x0) < 1e3
                 and abs(y0) < 1e3 and 1e-6 < abs(flux) < 1e6):
